@@ -1057,6 +1057,119 @@ def oracle_be_linear(c, out):
         return f"backward Euler on y' = -k y gave {s['y'][0]!r}, the implicit-Euler map gives {exact!r}"
     return None
 
+# =============================================================================== C16 (ThreadSanitizer run)
+def special_c16(tier, seed):
+    import subprocess, hashlib, re, shutil, build_harness
+    REPO = build_harness.REPO
+    key = build_harness.tree_hash([os.path.join(REPO, "include"), os.path.join(VERIF, "harness")], "tsan")
+    outdir = os.path.join(VERIF, "build", "tsan", key)
+    exe = os.path.join(outdir, "tsan_driver")
+    fails = []
+    samples = []
+    dist = {}
+    if not os.path.exists(exe):
+        base = os.path.join(VERIF, "build", "tsan")
+        if os.path.isdir(base):
+            for d in os.listdir(base):
+                shutil.rmtree(os.path.join(base, d), ignore_errors=True)
+        os.makedirs(outdir, exist_ok=True)
+        r = subprocess.run(["g++", "-std=c++20", "-O1", "-g", "-fsanitize=thread", "-DMICM_DEFAULT_VECTOR_SIZE=4", "-DMICM_VERIF",
+                            f"-I{REPO}/include", f"-I{VERIF}/harness", "-w", os.path.join(VERIF, "harness", "tsan_driver.cpp"),
+                            "-o", exe, "-pthread"], capture_output=True, text=True)
+        if r.returncode != 0:
+            shutil.rmtree(outdir, ignore_errors=True)
+            return dict(evaluations=0, fails=[("the shared-solver driver does not compile against /repo's current tree", {"stderr": r.stderr[-2000:]}, False)],
+                        samples=[], dist={}, nontrivial=0)
+    runs = [(2, 4), (4, 4), (8, 3), (16, 2)] if tier == "quick" else [(t, 6) for t in (2, 3, 4, 6, 8, 12, 16)] * 6
+    n = 0
+    for q, (threads, rounds) in enumerate(runs):
+        sd = seed * 100 + q
+        r = subprocess.run([exe, str(sd), str(threads), str(rounds)], capture_output=True, text=True,
+                           env=dict(os.environ, TSAN_OPTIONS="halt_on_error=0 report_signal_unsafe=0"), timeout=600)
+        lines = [l for l in r.stdout.splitlines() if l.startswith("tsan ")]
+        n += len(lines)
+        dist["threads=%d" % threads] = dist.get("threads=%d" % threads, 0) + len(lines)
+        samples += lines[:1]
+        if "ThreadSanitizer" in r.stderr:
+            m = re.search(r"WARNING: ThreadSanitizer: ([^\n]*)", r.stderr)
+            loc = re.findall(r"#\d+ ([^\n]*micm[^\n]*)", r.stderr)[:4]
+            fails.append((f"ThreadSanitizer: {m.group(1) if m else 'report'} with {threads} threads sharing one solver",
+                          {"cmd": f"{exe} {sd} {threads} {rounds}", "report": r.stderr[:3000], "frames": loc}, True))
+        for l in lines:
+            if "differ=0 after=0" not in l:
+                fails.append((f"threads sharing one solver did not reproduce their serial results bit for bit: {l}",
+                              {"cmd": f"{exe} {sd} {threads} {rounds}", "line": l}, True))
+        if r.returncode != 0 and "ThreadSanitizer" not in r.stderr:
+            fails.append((f"shared-solver driver exited with {r.returncode}", {"cmd": f"{exe} {sd} {threads} {rounds}", "stderr": r.stderr[-1500:]}, True))
+        if len(lines) < 5 and r.returncode == 0:
+            fails.append(("shared-solver driver produced fewer configurations than expected", {"stdout": r.stdout[-500:]}, False))
+    # source scan: shared mutable state reachable from the CPU solver headers
+    allow = {"profiler/instrumentation.hpp"}
+    pat = re.compile(r"\bmutable\b|const_cast|\bthread_local\b|^\s*static\s+(?!constexpr|const\b|inline\s+const|_assert)[A-Za-z_:<>,\s\*&]+\s+[A-Za-z_]\w*\s*(=|;|\{)")
+    inc = os.path.join(REPO, "include", "micm")
+    for d, _, files in os.walk(inc):
+        if "/cuda" in d or "/jit" in d: continue
+        for f in files:
+            rel = os.path.relpath(os.path.join(d, f), inc)
+            if rel in allow or not f.endswith((".hpp", ".inl")): continue
+            for i, ln in enumerate(open(os.path.join(d, f), errors="replace")):
+                code = ln.split("//")[0]
+                if pat.search(code) and "(" not in code.split("static")[-1][:0]:
+                    if re.search(r"^\s*static\s+[\w:<>,\s\*&]+\s+\w+\s*\(", code):   # static member function
+                        continue
+                    fails.append((f"shared mutable state in {rel}:{i+1}: {ln.strip()[:100]} (the schedule-independence theorem assumes the solver entry points write only the caller's State)",
+                                  {"file": rel, "line": i + 1, "text": ln.strip()}, False))
+    return dict(evaluations=n, fails=fails, samples=samples[:4], dist=dist, nontrivial=n)
+
+# =============================================================================== C18 (JIT vs CPU, in process)
+def special_c18(tier, seed):
+    import subprocess, shutil, build_harness
+    REPO = build_harness.REPO
+    key = build_harness.tree_hash([os.path.join(REPO, "include"), os.path.join(VERIF, "harness")], "jit")
+    outdir = os.path.join(VERIF, "build", "jit", key)
+    exe = os.path.join(outdir, "jit_driver")
+    if not os.path.exists(exe):
+        base = os.path.join(VERIF, "build", "jit")
+        if os.path.isdir(base):
+            for d in os.listdir(base):
+                shutil.rmtree(os.path.join(base, d), ignore_errors=True)
+        os.makedirs(outdir, exist_ok=True)
+        try:
+            fl = subprocess.run(["llvm-config-14", "--cxxflags"], capture_output=True, text=True).stdout.split()
+            fl = [f for f in fl if not f.startswith("-std=") and f not in ("-fno-exceptions", "-fno-rtti")]
+            ld = subprocess.run(["llvm-config-14", "--ldflags", "--libs", "support", "core", "orcjit", "native", "irreader", "--system-libs"],
+                                capture_output=True, text=True).stdout.split()
+        except FileNotFoundError:
+            return dict(evaluations=0, fails=[("llvm-config-14 not available: the JIT backend cannot be built", {}, False)], samples=[], dist={}, nontrivial=0)
+        r = subprocess.run(["g++", "-std=c++20", "-O1", "-ffp-contract=off", "-DMICM_DEFAULT_VECTOR_SIZE=4", "-DMICM_ENABLE_LLVM", "-DMICM_VERIF",
+                            f"-I{REPO}/include", f"-I{VERIF}/harness", "-w"] + fl + [os.path.join(VERIF, "harness", "jit_driver.cpp"), "-o", exe] + ld,
+                           capture_output=True, text=True)
+        if r.returncode != 0:
+            shutil.rmtree(outdir, ignore_errors=True)
+            return dict(evaluations=0, fails=[("the JIT driver does not compile against /repo's current tree", {"stderr": r.stderr[-2000:]}, False)],
+                        samples=[], dist={}, nontrivial=0)
+    n = 12 if tier == "quick" else 250
+    r = subprocess.run([exe, str(seed), str(n)], capture_output=True, text=True, timeout=3000)
+    lines = [l for l in r.stdout.splitlines() if l.strip()]
+    fails = []
+    dist = {}
+    nontriv = 0
+    for l in lines:
+        if not l.startswith("jit "):
+            fails.append((f"JIT driver case failed: {l[:120]}", {"cmd": f"{exe} {seed} {n}", "line": l}, True)); continue
+        kv = dict(t.split("=", 1) for t in l.split()[1:] if "=" in t)
+        dist["L=" + kv.get("L", "?")] = dist.get("L=" + kv.get("L", "?"), 0) + 1
+        if int(kv.get("steps", "0")) > 1: nontriv += 1
+        if kv.get("equal") != "1":
+            fails.append((f"JIT solver result differs from the CPU solver: {l[:200]}", {"cmd": f"{exe} {seed} {n}", "line": l}, True))
+        if "guard=err MICM_JIT 1" not in l:
+            fails.append((f"a JIT solver for a cell count different from L was not rejected with the JIT error: {l[-60:]}", {"cmd": f"{exe} {seed} {n}", "line": l}, True))
+    if r.returncode != 0:
+        fails.append((f"JIT driver exited with {r.returncode}", {"stderr": r.stderr[-1500:]}, True))
+    if len(lines) < 4 * n and r.returncode == 0:
+        fails.append(("JIT driver produced fewer cases than requested", {"stdout": r.stdout[-500:]}, False))
+    return dict(evaluations=len(lines), fails=fails, samples=lines[:3], dist=dist, nontrivial=nontriv)
+
 # =============================================================================== registry
 ASSUME_FP = "floating-point rounding is not modelled in the theorems; the model's Float run is compared bit-for-bit with the C++"
 PROPS = {
@@ -1088,8 +1201,16 @@ PROPS = {
              Ls={"quick": [0], "thorough": [0]}, san=1, assumptions=["at most one non-gas phase per generated system (the iteration order of the unordered phase map is then irrelevant)"]),
  "C15": dict(level="proof", gen=g_c15, rule="random mixes of the 7 rate-constant types, T 150-350 K, P 1-1.1e5 Pa, custom parameters set by label; transcendental formulas compared within 16 ulp",
              Ls={"quick": [0, 3], "thorough": [0, 1, 2, 3, 4]}, missing="the formulas are transcribed and compared numerically, not proved", assumptions=[ASSUME_FP]),
+ "C16": dict(level="other", gen=None, special=special_c16, rule="2..16 threads sharing one solver (Rosenbrock/backward Euler, standard/vector/in-place), each with its own States, under ThreadSanitizer; per-thread results compared bitwise with serial runs; source scan for shared mutable state",
+             Ls={"quick": [0], "thorough": [0]},
+             explanation="Model theorem (Lean): for every interleaving each thread obtains exactly its serial result, given that steps read the shared solver and write only the stepping thread's State. That premise about the C++ is validated, not proved: ThreadSanitizer over 2..16-thread runs, bitwise serial/parallel comparison, and a source scan for mutable/static/const_cast. The C++ memory model and the scheduler are outside the model.",
+             missing="data-race freedom of the C++ is validated by execution (TSan), not proved", assumptions=["the three-argument Solve overload (which writes solver_parameters_) is excluded, as in the property"]),
  "C17": dict(level="proof", gen=g_c17, rule="random histories of copy/move construct/assign, set, solve over up to 8 State objects under ASan+UBSan; final: solve on a copy == solve on its source",
              Ls={"quick": [0, 3], "thorough": [0, 1, 2, 3, 4]}, assumptions=["moved-from States are not used again (C++ contract)"]),
+ "C18": dict(level="other", gen=None, special=special_c18, rule="seeded random mechanisms x L=1..4 x five parameter sets: JIT-built solver vs CPU vector solver on identical states, bitwise (status, final time, all counters, all concentrations); cell count L+1 must be rejected",
+             Ls={"quick": [0], "thorough": [0]},
+             explanation="Lean theorems cover only the decision logic of the three cell-count guards as written. Observational equivalence of the LLVM-generated functions with the vectorised C++ kernels is established by in-process differential execution (bit-exact), and the CPU vector kernels are themselves tied to the model by the other checks. LLVM code generation is trusted; the emitted IR is not parsed.",
+             missing="no theorem relates the generated programs to the tables (jitProgram = program was planned in DESIGN and not built)"),
  "C19": dict(level="proof", gen=g_c19, rule="all non-empty patterns n<=3 (quick) / n<=4 (thorough) + random larger, block counts 1..2L+1; all dense shapes rows 0..3L+1 x cols 0..6",
              Ls={"quick": [0, 1, 3], "thorough": [0, 1, 2, 3, 4]}, exhaustive={"quick": True, "thorough": True}),
  "C20": dict(level="proof", gen=g_c20, rule="builder error injection (missing system/reactions/species, unknown names, unused species), rejected setter calls inside valid histories, matrix access errors; under ASan+UBSan",
